@@ -90,9 +90,23 @@ pub fn terminal_write(ft: &mut Tape, len: u64) -> (Policy, &'static str) {
     (p, label)
 }
 /// One terminal read fault at an offset inside the image
-pub fn terminal_read(ft: &mut Tape, len: u64) -> Policy {
+/// `allow_early_eof`: only for formats whose reader can tell a cut file from a whole one (GDSII needs ENDLIB);
+/// a prefix of a YAML or LEF 5.6+ file is itself a valid file, so early end-of-file is not a fault *they* can report
+pub fn terminal_read(ft: &mut Tape, len: u64, allow_early_eof: bool) -> Policy {
     let mut p = if ft.chance(1, 3) { benign(ft) } else { Policy::plain() };
-    p.terms.push(Term { at: fault_offset(ft, len), kind: TermKind::Eio, sticky: ft.chance(1, 2) });
+    if allow_early_eof && ft.chance(1, 4) && len > 0 {
+        // the file shrank while being read: end-of-file arrives early although the size said otherwise
+        p.eof_at = Some(fault_offset(ft, len));
+    } else {
+        p.terms.push(Term { at: fault_offset(ft, len), kind: TermKind::Eio, sticky: ft.chance(1, 2) });
+    }
+    p
+}
+/// A consumed (by-value) sink with a write-back cache whose first flush calls are interrupted
+pub fn writeback_sink(ft: &mut Tape) -> Policy {
+    let mut p = if ft.chance(1, 2) { benign(ft) } else { Policy::plain() };
+    p.writeback = true;
+    p.flush_eintr = ft.draw(3) as u32;
     p
 }
 pub fn policy_digest(p: &Policy) -> u64 {
@@ -107,5 +121,8 @@ pub fn policy_digest(p: &Policy) -> u64 {
     }
     d.u64(p.flush_fail.map(|x| x as u64 + 1).unwrap_or(0));
     d.u64(p.not_seekable as u64);
+    d.u64(p.writeback as u64);
+    d.u64(p.flush_eintr as u64);
+    d.u64(p.eof_at.map(|x| x + 1).unwrap_or(0));
     d.finish()
 }
